@@ -70,7 +70,7 @@ func (c10Prop) Assumptions() []string {
 	}
 }
 
-var c10Types = []string{"Mixed", "Nested", "Ptrs", "Slices", "Maps", "Timed", "Flat", "Mixed", "Nested", "PlainOmit", "Omit", "PtrSlices", "PtrSlices", "Nulls", "NullPtrs", "NullPtrs", "Timed", "MapPtrs", "MapPtrs", "Narrow", "Narrow"}
+var c10Types = []string{"Mixed", "Nested", "Ptrs", "Slices", "Maps", "Timed", "Flat", "Mixed", "Nested", "PlainOmit", "Omit", "PtrSlices", "PtrSlices", "Nulls", "NullPtrs", "NullPtrs", "Timed", "MapPtrs", "MapPtrs", "Narrow", "Narrow", "Fixed", "Fixed"}
 
 var c10AllocTypes = []reflect.Type{
 	reflect.TypeFor[int64](), reflect.TypeFor[bool](), reflect.TypeFor[string](), reflect.TypeFor[[]byte](),
